@@ -95,6 +95,15 @@ pub fn run<A: Cx>(d: &mut Drv<A>, scale: usize, all: bool) {
             }
             d.emit(json!({"op": "bitop", "dst": 4, "x": sl(0, oa, oa + n), "y": sl(1, ob, ob + n), "t": "or", "via": "ref"}));
             d.emit(json!({"op": "bitop", "dst": 5, "x": sl(0, oa, oa + n), "y": sl(1, ob, ob + n), "t": "and", "via": "ref"}));
+            // the owned operators consume their operands: feed them what the borrowed operators on
+            // windows at independent offsets just returned (and an equally long owned copy of a window)
+            d.emit(json!({"op": "bitop", "dst": 10, "x": whole(4), "y": whole(5), "t": "and", "via": "move"}));
+            d.emit(json!({"op": "bitop", "dst": 11, "x": whole(5), "y": whole(4), "t": "or", "via": "move"}));
+            d.emit(json!({"op": "bitop", "dst": 10, "x": whole(4), "y": whole(3), "t": "or", "via": "move"}));
+            d.emit(json!({"op": "bitop", "dst": 11, "x": whole(3), "y": whole(5), "t": "and", "via": "move"}));
+            d.emit(json!({"op": "bitop", "dst": 4, "x": whole(10), "y": whole(11), "t": "or", "via": "move"}));
+            d.emit(json!({"op": "bitop", "dst": 5, "x": sl(0, oa, oa + n), "y": sl(1, ob, ob + n), "t": "and", "via": "ref"}));
+            d.emit(json!({"op": "bitop", "dst": 4, "x": sl(0, oa, oa + n), "y": sl(1, ob, ob + n), "t": "or", "via": "ref"}));
             // a | b contains both, both contain a & b
             d.emit(json!({"op": "contains", "x": {"kind": "seq", "src": whole(4)}, "y": sl(0, oa, oa + n)}));
             d.emit(json!({"op": "contains", "x": {"kind": "slice", "src": sl(1, ob, ob + n)}, "y": whole(5)}));
